@@ -383,7 +383,7 @@ PROPS['C09'] = {
     'explanation': 'TWO PARTS.  (1) Discharged for ALL attribute values, by symbolic execution of the real parser and serialiser on a symbolic '
                    'stanza of the documented shape (one scenario per class; preconditions = the documented shape: tag, mandatory attributes, '
                    'enumerated values, numerals in canonical decimal form; every documented attribute and child must come back equal and '
-                   'nothing may be invented): 57 entity classes - acks, receipts (without item list), chat states, presence family, last-seen '
+                   'nothing may be invented): 58 entity classes - acks, receipts (without item list), chat states, presence family, calls (one scenario per child kind), last-seen '
                    'result, notifications (base, picture set/delete, status, contact add/remove/update/sync, groups base/subject/add/remove), '
                    'ib family (ib, dirty, offline, account, clean), iq family (base, ping, pong, result, error, privacy list, picture get / '
                    'get-result / set / list, privacy get / set / result, status set, statuses get / result, unregister, sync, groups base / '
@@ -403,7 +403,7 @@ PROPS['C09'] = {
     'assumptions': ['the repository\'s own fixtures and class docstrings are the documented shapes', 'ProtocolTreeNode.getChild is an assumed pure function of (node, tag)',
                     'scenarios over child lists are proved for exactly two children', 'an absent offline attribute and offline="0" are the same stanza (default rendering)',
                     'classes without fixture, reproducing example or scenario are not exercised (listed in the evidence)'],
-    'technique': 'contract-based deductive verification (PyVC scenarios: the real parser and serialiser executed symbolically on a symbolic stanza, z3/cvc5) for 57 entity classes; bounded native stand-in on the real classes and codec (labelled bounded) for the rest and for the codec conjunct',
+    'technique': 'contract-based deductive verification (PyVC scenarios: the real parser and serialiser executed symbolically on a symbolic stanza, z3/cvc5) for 58 entity classes; bounded native stand-in on the real classes and codec (labelled bounded) for the rest and for the codec conjunct',
 }
 
 PROPS['C03'] = {
